@@ -33,6 +33,12 @@ def jobs(tier):
                            bounds="ts: every instant of {}-{:02d} (d, h, mi, s symbolic), weekday 0..6 symbolic".format(y, m),
                            functions=[fn_id(body(RULE[n])), "dateutil.relativedelta (real)"],
                            lift="lift_" + n, site=RULE[n]))
+    import sys
+    import ctparse.ctparse  # noqa
+    CC = sys.modules["ctparse.ctparse"]
+    out.append(Job("C03.TS-DEFAULT", "vq.harness.h_api2", "ob_ts_default", timeout=1800, path_timeout=120,
+                   bounds="6 texts x 4 years x 4 months x 3 days x 3 hours x 3 minutes: ctparse(text) with the clock stubbed to ts equals ctparse(text, ts=ts)",
+                   functions=[fn_id(CC.ctparse_gen)], stubs=["ctparse.ctparse.datetime replaced by a subclass whose now() returns the pool instant; parser untraced, pool indices symbolic"], site="ctparse_gen"))
     return out
 
 
